@@ -25,7 +25,7 @@ ENOTDIR == 20   EINVAL == 22   EROFS == 30   ENOTEMPTY == 39
 
 \* ------------------------------------------------------------------ 1. menu
 \* entries produced by the mount.Builder helpers (WithBind / WithTmpfs / WithProc[RW]) ...
-BuilderKinds == {"bdro", "bdrw", "bfro", "bfrw", "tmp", "procro", "procrw", "nest", "nestf", "noent", "bdrol", "bdros", "nestb", "nestt"}
+BuilderKinds == {"bdro", "bdrw", "bfro", "bfrw", "tmp", "procro", "procrw", "nest", "nestf", "noent", "bdrol", "bdros", "bdrof", "nestb", "nestt"}
 \* ... and hand-written mount.Mount values (public struct, accepted by container.Builder.Mounts and, through
 \* Builder.WithMount(...).Build(), by the namespace runner) with flag combinations the helpers never produce.
 \* "Declared read-only" is the MS_RDONLY bit of the entry, whatever else is set.
@@ -44,6 +44,7 @@ NN == <<"n1", "n2", "n3">>      \* nested directory targets under "w"
 GN == <<"g1", "g2", "g3">>      \* nested file targets under "w"
 XN == <<"x1", "x2", "x3">>      \* targets of binds whose source does not exist
 KN == <<"k1", "k2", "k3">>      \* targets of binds from the nosuid,nodev,noexec file system
+YN == <<"y1", "y2", "y3">>      \* targets of binds whose source file system changes between build and run
 VN == <<"v1", "v2", "v3">>      \* targets of binds from the file system with shared propagation
 HN == <<"h1", "h2", "h3">>      \* targets of hand-written directory binds
 EN == <<"e1", "e2", "e3">>      \* targets of hand-written file binds
@@ -52,10 +53,14 @@ DS == <<"d1", "d2", "d3">>      \* source directories
 SS == <<"s1", "s2", "s3">>      \* source files
 MS == <<"m1", "m2", "m3">>      \* missing sources
 LS == <<"l1", "l2", "l3">>      \* source directories on the "locked" file system
+QS == <<"q1", "q2", "q3">>      \* source directories on a file system that is READ-ONLY while the mount table is
+                                \* built (FilterNotExist / Build) and writable when the sandbox runs: read-only-ness
+                                \* must be enforced by the mount sequence of every run, not inferred from host state
 PS == <<"p1", "p2", "p3">>      \* source directories on a host mount with SHARED propagation; the host mounts
                                 \* a file system on <source>/dyn once the sandbox has been set up
 
-DirSrc    == {"d1", "d2", "d3", "l1", "l2", "l3", "p1", "p2", "p3"}
+DirSrc    == {"d1", "d2", "d3", "l1", "l2", "l3", "p1", "p2", "p3", "q1", "q2", "q3"}
+FlipSrc   == {"q1", "q2", "q3"}
 SharedSrc == {"p1", "p2", "p3"}
 FileSrc   == {"s1", "s2", "s3"}
 LockedSrc == {"l1", "l2", "l3"}
@@ -89,6 +94,7 @@ Entry(i, k) ==
     [] k = "noent"  -> B("bind",  <<XN[i]>>,      MS[i],   TRUE)
     [] k = "bdrol"  -> B("bind",  <<KN[i]>>,      LS[i],   TRUE)
     [] k = "bdros"  -> B("bind",  <<VN[i]>>,      PS[i],   TRUE)
+    [] k = "bdrof"  -> B("bind",  <<YN[i]>>,      QS[i],   TRUE)
     \* nested inside the directory bind of the previous position (cyclic): a read-only bind over its
     \* "secretd" directory; a tmpfs over it (hides secretd/inner of the parent's source)
     [] k = "nestb"  -> B("bind",  <<BN[PrevPos(i)], "secretd">>, DS[i],   TRUE)
@@ -158,7 +164,9 @@ ContOptsMain == { <<"def", "def", TRUE>>, <<"def", "def", FALSE>>, <<"cus", "cus
 \*        sharefl: statfs flag names of the file system holding the shared-propagation sources,
 \*        shared : that file system really has shared propagation on the host side (all other host
 \*                 mounts are private: the driver runs under unshare -m --propagation private)]
+\*        flipfl : statfs flag names of the flip file system AT RUN TIME (it was read-only at build time)
 HostFl(src, env) == IF src \in LockedSrc THEN env.lockfl ELSE IF src \in SharedSrc THEN env.sharefl
+                    ELSE IF src \in FlipSrc THEN env.flipfl
                     ELSE IF src = "devnull" THEN {} ELSE env.srcfl
 MntFlagNames == {"RDONLY", "NOSUID", "NODEV", "NOEXEC"}
 \* statfs bits that have the same value as the MS_ flag: ST_RELATIME (4096) is not MS_RELATIME
